@@ -102,7 +102,7 @@ def check_one(rep, h):
 
     def atomize(x):
         # f_k = c_k - trunc(c_k)
-        if x[0] == 'op' and x[1] == 'fsub' and x[3] in coords and x[4][0] == 'fn' and x[4][1] == 'llvm.trunc' and x[4][3] == x[3]:
+        if x[0] == 'op' and x[1] == 'fsub' and x[3] in coords and x[4][0] == 'fn' and x[4][1] in ('llvm.trunc', 'llvm.floor', 'truncf', 'trunc', 'floorf', 'floor') and x[4][3] == x[3]:
             return ('frac', x[3][1])
         if x[0] == 'ld' and x[1][0] == 'ret':
             return x
